@@ -31,8 +31,11 @@ func init() {
 				Doc: "The lock-order graph over lock fields (edge L1->L2 when L2 is acquired, possibly in a callee, while L1 is held) is acyclic and has no self edge; sync.RWMutex read locks are not re-entrant once a writer waits, so a cycle or self edge is a deadlock under some schedule.",
 				Run: ruleC12d},
 			{ID: "C12.e", Template: "T-LOCK", Required: true,
-				Doc: "While a container or service lock is held there is no channel operation and no http serving call: a slow request would otherwise stall Add/Remove (and every request behind the waiting writer).",
+				Doc: "While a container or service lock is held there is no channel operation, no http serving call and no request-processing callback (filter, route function, plain handler, recover or service-error handler), directly or in a callee: a slow request would otherwise stall Add/Remove (and every request behind the waiting writer), and a filter that re-enters a locking API (OPTIONSFilter -> RegisteredWebServices) deadlocks behind a queued writer. Route conditions and the router itself run under the read lock by design and are not in this set.",
 				Run: ruleC12e},
+			{ID: "C12.f", Template: "T-LOCK", Required: true,
+				Doc: "Read-modify-write atomicity: in a function that stores a mutable-while-serving field, every read of that field - direct or through a callee such as the copying accessor - happens while the field's lock is held in write mode. Filtering a snapshot taken under the read lock and storing the result under the write lock is race-free but loses a concurrent Route().",
+				Run: ruleC12f},
 		},
 	})
 }
@@ -597,6 +600,26 @@ func ruleC12e(c *Ctx) {
 			}
 		}
 	}
+	// request-processing callbacks
+	procMemo := map[*ssa.Function]bool{}
+	for _, fn := range p.SrcFunc {
+		eachInstr(fn, func(i ssa.Instruction) {
+			held := li.heldAt(i)
+			if len(held) == 0 {
+				return
+			}
+			if what := processingCallback(i); what != "" {
+				c.bad(p.fname(fn), what+" while holding "+lockSetString(held), p.ipos(i), "request-processing user code runs inside a critical section: it may take arbitrarily long and may re-enter a locking API of the container")
+				return
+			}
+			if cc := callCommon(i); cc != nil {
+				if cal := cc.StaticCallee(); cal != nil && p.inModule(cal) && runsProcessingCallback(p, cal, cg, procMemo) {
+					c.bad(p.fname(fn), "call of "+p.fname(cal)+" while holding "+lockSetString(held), p.ipos(i),
+						p.fname(cal)+" runs filters / route functions / handlers; doing so under a lock stalls Add/Remove behind every slow request and deadlocks when such a callback re-enters a locking API (e.g. OPTIONSFilter -> RegisteredWebServices) while a writer waits")
+				}
+			}
+		})
+	}
 	reach := cg.reach(under, nil)
 	nf := 0
 	for _, fn := range p.SrcFunc {
@@ -630,4 +653,135 @@ func ruleC12e(c *Ctx) {
 		})
 	}
 	c.ok("-", "no blocking operation under a lock", "-", "examined "+itoa(nsites)+" instructions executed under a lock and "+itoa(nf)+" functions reachable from call sites under a lock")
+}
+
+var processingFuncTypes = map[string]bool{"FilterFunction": true, "RouteFunction": true, "RecoverHandleFunction": true, "ServiceErrorHandleFunction": true}
+
+// processingCallback: the instruction invokes request-processing user code.
+func processingCallback(i ssa.Instruction) string {
+	cc := callCommon(i)
+	if cc == nil {
+		return ""
+	}
+	if cc.IsInvoke() {
+		if cc.Method.Name() == "ServeHTTP" {
+			return "http handler call"
+		}
+		return ""
+	}
+	switch calleeName(cc) {
+	case "(*net/http.ServeMux).ServeHTTP", "(net/http.HandlerFunc).ServeHTTP":
+		return "http serving call"
+	}
+	if isDynamicCall(cc) {
+		t := cc.Value.Type()
+		if n, ok := types.Unalias(t).(*types.Named); ok && n.Obj().Pkg() != nil && n.Obj().Pkg().Path() == modulePath && processingFuncTypes[n.Obj().Name()] {
+			return "call of a " + n.Obj().Name()
+		}
+		if s := requestShape(cc.Signature()); s == "filter-function" || s == "route-function" || s == "http-handler" {
+			return "call of a " + s + " value"
+		}
+	}
+	return ""
+}
+
+func runsProcessingCallback(p *Program, fn *ssa.Function, cg *CallGraph, memo map[*ssa.Function]bool) bool {
+	if v, ok := memo[fn]; ok {
+		return v
+	}
+	memo[fn] = false
+	res := false
+	eachInstr(fn, func(i ssa.Instruction) {
+		if res {
+			return
+		}
+		if processingCallback(i) != "" {
+			res = true
+		}
+	})
+	if !res {
+		for _, e := range cg.Out[fn] {
+			if e.Kind == EdgeEscape {
+				continue
+			}
+			if runsProcessingCallback(p, e.Callee, cg, memo) {
+				res = true
+				break
+			}
+		}
+	}
+	memo[fn] = res
+	return res
+}
+
+func ruleC12f(c *Ctx) {
+	p := c.P
+	li := p.lockInfo()
+	cg := p.callGraph()
+	fields := mutableFields(p, li)
+	// transitive reads of each field
+	reads := map[*ssa.Function]map[*types.Var]bool{}
+	for _, fn := range p.Funcs {
+		m := map[*types.Var]bool{}
+		for _, a := range p.fieldAccesses(fn) {
+			if a.Kind == "load" && !p.freshBase(a.Addr) {
+				m[a.Field] = true
+			}
+		}
+		reads[fn] = m
+	}
+	for changed := true; changed; {
+		changed = false
+		for _, fn := range p.Funcs {
+			for _, e := range cg.Out[fn] {
+				if e.Kind == EdgeEscape || e.Kind == EdgeMux {
+					continue
+				}
+				for f := range reads[e.Callee] {
+					if !reads[fn][f] {
+						reads[fn][f] = true
+						changed = true
+					}
+				}
+			}
+		}
+	}
+	n := 0
+	for _, m := range fields {
+		key := m.Owner + "." + m.Field.Name()
+		if _, ok := c12InitBeforePublish[key]; ok || m.Lock == nil {
+			continue
+		}
+		storers := map[*ssa.Function]bool{}
+		for _, s := range m.Stores {
+			storers[s.Fn] = true
+		}
+		for fn := range storers {
+			name := p.fname(fn)
+			for _, a := range p.fieldAccesses(fn) {
+				if a.Field != m.Field || a.Kind != "load" || p.freshBase(a.Addr) {
+					continue
+				}
+				n++
+				c.check(li.heldAt(a.Instr)[m.Lock] == lockW, name, "read of "+key+" in the write critical section that updates it", p.ipos(a.Instr),
+					"held: "+lockSetString(li.heldAt(a.Instr)), "the field is read outside the write lock and stored later: a concurrent update in between is lost")
+			}
+			for _, e := range cg.Out[fn] {
+				if e.Kind != EdgeStatic && e.Kind != EdgeInvoke && e.Kind != EdgeClosure {
+					continue
+				}
+				if !reads[e.Callee][m.Field] {
+					continue
+				}
+				n++
+				c.check(li.heldAt(e.Site)[m.Lock] == lockW, name, "read of "+key+" through "+p.fname(e.Callee)+" in the write critical section", p.ipos(e.Site),
+					"held: "+lockSetString(li.heldAt(e.Site)),
+					p.fname(e.Callee)+" reads "+key+" while this function holds "+lockSetString(li.heldAt(e.Site))+", and the function stores "+key+" later under the write lock: the stored value is computed from a stale snapshot, a concurrent Route()/Add() in between is silently undone")
+			}
+		}
+	}
+	c.count("rmw_reads", n)
+	if n == 0 {
+		c.triv("-", "no read-modify-write of a mutable field", "-", "nothing to decide")
+	}
 }
